@@ -1,8 +1,12 @@
 import GroupbyVerif.Props.C02
+import GroupbyVerif.Props.C04
+import GroupbyVerif.Model.Composite
+import GroupbyVerif.Lemmas.Margins
 import Mathlib.Tactic.FieldSimp
 import Mathlib.Tactic.Ring
 import Mathlib.Algebra.Order.Field.Rat
 import Mathlib.Data.List.Basic
+import Mathlib.Data.List.Nodup
 
 /-!
 # C16 — Variance, quantiles and composite statistics match their definitions
@@ -66,9 +70,268 @@ theorem density_sums_to_100 (ss : List Rat) (ht : lsum ss ≠ 0) :
   rw [key]
   field_simp
 
-/-- **ratio** is sum over sum by definition of the composition; a list of aggregations is the
-individual calls side by side (both are compositions of the primitives in `GroupBy.agg` / `ratio`) -/
-theorem ratio_eq_sum_div_sum (a b : Rat) : a / b = a / b := rfl
+/-! ## the composite statistics end to end, on top of the kernel theorem of C04
+
+`Model/Composite.lean` is the executable model of `GroupBy.var / ratio / subset_ratio / density` as
+combinations of kernel calls (tied to the implementation by the driver op `composite`). -/
+
+/-- the numbers of the non-null values of a group -/
+def groupNums (k : Kind) (sel : List Row) (g : Int) : List Int := numsOf (nonNull k (valsOf sel g))
+
+theorem nonNull_all_num {k : Kind} {vs : List Val} (hwf : ∀ v ∈ vs, WF k v) :
+    ∀ v ∈ nonNull k vs, ∃ n, v = .num n := by
+  intro v hv
+  simp only [nonNull, List.mem_filter, Bool.not_eq_eq_eq_not, Bool.not_true] at hv
+  exact wf_nonnull_num (hwf v hv.1) hv.2
+
+theorem foldl_add_num : ∀ (vs : List Val) (acc : Int), (∀ v ∈ vs, ∃ n, v = .num n) →
+    vs.foldl Val.add (.num acc) = .num (acc + (numsOf vs).foldr (· + ·) 0)
+  | [], acc, _ => by simp [numsOf]
+  | v :: vs, acc, h => by
+    obtain ⟨n, rfl⟩ := h v (List.mem_cons_self ..)
+    have ih := foldl_add_num vs (acc + n) (fun w hw => h w (List.mem_cons_of_mem _ hw))
+    simp only [List.foldl_cons, Val.add, ih, numsOf, List.filterMap_cons, Val.toInt?, List.foldr_cons]
+    congr 1; omega
+
+theorem foldl_addSq_num : ∀ (vs : List Val) (acc : Int), (∀ v ∈ vs, ∃ n, v = .num n) →
+    vs.foldl vaddSq (.num acc) = .num (acc + ((numsOf vs).map fun n => n * n).foldr (· + ·) 0)
+  | [], acc, _ => by simp [numsOf]
+  | v :: vs, acc, h => by
+    obtain ⟨n, rfl⟩ := h v (List.mem_cons_self ..)
+    have ih := foldl_addSq_num vs (acc + n * n) (fun w hw => h w (List.mem_cons_of_mem _ hw))
+    simp only [List.foldl_cons, vaddSq, Val.sq, Val.add, ih, numsOf, List.filterMap_cons, Val.toInt?, List.map_cons,
+      List.foldr_cons]
+    congr 1; omega
+
+theorem numsOf_length {vs : List Val} (h : ∀ v ∈ vs, ∃ n, v = .num n) : (numsOf vs).length = vs.length := by
+  induction vs with
+  | nil => rfl
+  | cons v vs ih =>
+    obtain ⟨n, rfl⟩ := h v (List.mem_cons_self ..)
+    simp [numsOf, Val.toInt?] at ih ⊢
+    exact ih (fun w hw => h w (List.mem_cons_of_mem _ hw))
+
+/-- the `sum` kernel's result for one group is the integer sum of its non-null selected values -/
+theorem spec_sum_num {k : Kind} {vs : List Val} (hwf : ∀ v ∈ vs, WF k v) :
+    (specKernel .sum k vs).1 = .num ((numsOf (nonNull k vs)).foldr (· + ·) 0) := by
+  simp only [specKernel, sumVals]
+  rw [foldl_add_num _ 0 (nonNull_all_num hwf)]; simp
+
+theorem spec_sumSq_num {k : Kind} {vs : List Val} (hwf : ∀ v ∈ vs, WF k v) :
+    (specKernel .sumSquares k vs).1 = .num (((numsOf (nonNull k vs)).map fun n => n * n).foldr (· + ·) 0) := by
+  simp only [specKernel, sumSqVals]
+  rw [foldl_addSq_num _ 0 (nonNull_all_num hwf)]; simp
+
+theorem spec_count_num {k : Kind} {vs : List Val} (hwf : ∀ v ∈ vs, WF k v) :
+    (specKernel .count k vs).1 = .num ((numsOf (nonNull k vs)).length : Nat) := by
+  simp only [specKernel]
+  rw [numsOf_length (nonNull_all_num hwf)]
+
+/-- integers as rationals -/
+def toRats (ns : List Int) : List Rat := ns.map fun (n : Int) => (n : Rat)
+
+theorem cast_sum (ns : List Int) : ((ns.foldr (· + ·) 0 : Int) : Rat) = lsum (toRats ns) := by
+  induction ns with
+  | nil => simp [lsum, toRats]
+  | cons n ns ih => simp only [List.foldr_cons, lsum, toRats, List.map_cons] at ih ⊢; rw [← ih]; push_cast; ring
+
+theorem cast_sumSq (ns : List Int) :
+    (((ns.map fun n => n * n).foldr (· + ·) 0 : Int) : Rat) = lsumSq (toRats ns) := by
+  induction ns with
+  | nil => simp [lsumSq, toRats]
+  | cons n ns ih =>
+    simp only [List.map_cons, List.foldr_cons, lsumSq, toRats] at ih ⊢
+    rw [← ih]; push_cast; ring
+
+/-- the arithmetic of one group: the one-pass formula on exact sums = the two-pass variance -/
+theorem varFrom_eq (ns : List Int) (ddof : Nat) :
+    varFrom (.num (((ns.map fun n => n * n).foldr (· + ·) 0))) (.num (ns.foldr (· + ·) 0)) (.num (ns.length : Nat)) ddof
+      = (let xs : List Rat := toRats ns
+        if xs.length = 0 ∨ xs.length = ddof then none
+        else some (lsumDev (lsum xs / (xs.length : Rat)) xs / ((xs.length : Rat) - (ddof : Rat)))) := by
+  simp only [varFrom, toRats, List.length_map]
+  by_cases hz : ns.length = 0
+  · simp [fdiv, hz]
+  · have hne : (toRats ns) ≠ [] := by
+      intro hnil; apply hz; simpa [toRats] using congrArg List.length hnil
+    have hlenR : ((ns.length : Int) : Rat) ≠ 0 := by exact_mod_cast hz
+    simp only [fdiv, Int.cast_natCast] at hlenR ⊢
+    rw [if_neg hlenR]
+    simp only
+    by_cases hd : ns.length = ddof
+    · have : ((ns.length : Rat) - (ddof : Rat)) = 0 := by rw [hd]; ring
+      simp [hd]
+    · have hsub : ((ns.length : Rat) - (ddof : Rat)) ≠ 0 := by
+        intro h0
+        apply hd
+        have : (ns.length : Rat) = (ddof : Rat) := sub_eq_zero.mp h0
+        exact_mod_cast this
+      rw [if_neg hsub, if_neg (by omega)]
+      have := var_identity (toRats ns) (ddof : Rat) hne
+      simp only [toRats, List.length_map] at this
+      rw [← this, cast_sumSq, cast_sum]
+      rfl
+
+/-- **`GroupBy.var` end to end**: for every mask kind, thread count and value chunking, the variance the
+library computes for group `g` from its three kernel calls is the two-pass sample variance
+`Σ(x − x̄)² / (n − ddof)` of the non-null values of the selected rows of `g`; it is null exactly when
+the group has no such value or `n = ddof` -/
+theorem group_var_eq_two_pass (k : Kind) (hk : k.Supported) (rows : List Row) (mask : Mask) (threads : Nat)
+    (vch : Option (List Nat)) (ddof : Nat) (out : Int → Option Rat)
+    (hwf : ∀ r ∈ rows, WF k r.2) (hm : ∀ m, mask = .bool m → m.length = rows.length)
+    (h : groupVar modelReducers k rows mask threads vch ddof = some out) (g : Int) (hg : 0 ≤ g) :
+    ∃ sel, selectRows rows mask = some sel ∧
+      out g = (let xs : List Rat := toRats (groupNums k sel g)
+        if xs.length = 0 ∨ xs.length = ddof then none
+        else some (lsumDev (lsum xs / (xs.length : Rat)) xs / ((xs.length : Rat) - (ddof : Rat)))) := by
+  unfold groupVar at h
+  cases h2 : groupKernel modelReducers .sumSquares k rows mask threads vch with
+  | none => simp [h2] at h
+  | some p2 =>
+  cases h1 : groupKernel modelReducers .sum k rows mask threads vch with
+  | none => simp [h2, h1] at h
+  | some p1 =>
+  cases hc : groupKernel modelReducers .count k rows mask threads vch with
+  | none => simp [h2, h1, hc] at h
+  | some pc =>
+  simp only [h2, h1, hc, Option.some.injEq] at h
+  subst h
+  obtain ⟨sel, hsel, e2⟩ := C04.groupKernel_eq_def .sumSquares k hk rows mask threads vch p2 hwf hm h2 g hg
+  obtain ⟨sel1, hsel1, e1⟩ := C04.groupKernel_eq_def .sum k hk rows mask threads vch p1 hwf hm h1 g hg
+  obtain ⟨selc, hselc, ec⟩ := C04.groupKernel_eq_def .count k hk rows mask threads vch pc hwf hm hc g hg
+  have hs1 : sel1 = sel := Option.some.inj (hsel1.symm.trans hsel)
+  have hsc : selc = sel := Option.some.inj (hselc.symm.trans hsel)
+  rw [hs1] at e1; rw [hsc] at ec
+  refine ⟨sel, hsel, ?_⟩
+  have hwfs : ∀ v ∈ valsOf sel g, WF k v :=
+    C04.valsOf_wf (fun r hr => hwf r (selectGen_mem rows mask sel hsel r hr)) g
+  simp only [e2, e1, ec, spec_sum_num hwfs, spec_sumSq_num hwfs, spec_count_num hwfs, varFrom, groupNums]
+  exact varFrom_eq _ ddof
+
+/-- **`GroupBy.ratio`**: sum of the group's selected non-null numerators over sum of its denominators
+(null when the denominator sum is zero) -/
+theorem group_ratio_eq (k : Kind) (hk : k.Supported) (codes : List Int) (v1 v2 : List Val) (mask : Mask) (threads : Nat)
+    (out : Int → Option Rat) (hwf1 : ∀ v ∈ v1, WF k v) (hwf2 : ∀ v ∈ v2, WF k v)
+    (hm1 : ∀ m, mask = .bool m → m.length = (codes.zip v1).length)
+    (hm2 : ∀ m, mask = .bool m → m.length = (codes.zip v2).length)
+    (h : groupRatio modelReducers k codes v1 v2 mask threads = some out) (g : Int) (hg : 0 ≤ g) :
+    ∃ s1 s2, selectRows (codes.zip v1) mask = some s1 ∧ selectRows (codes.zip v2) mask = some s2 ∧
+      out g = fdiv (((groupNums k s1 g).foldr (· + ·) 0 : Int) : Rat) (((groupNums k s2 g).foldr (· + ·) 0 : Int) : Rat) := by
+  unfold groupRatio at h
+  cases h1 : groupKernel modelReducers .sum k (codes.zip v1) mask threads none with
+  | none => simp [h1] at h
+  | some p1 =>
+  cases h2 : groupKernel modelReducers .sum k (codes.zip v2) mask threads none with
+  | none => simp [h1, h2] at h
+  | some p2 =>
+  simp only [h1, h2, Option.some.injEq] at h
+  subst h
+  have hw1 : ∀ r ∈ codes.zip v1, WF k r.2 := fun r hr => hwf1 r.2 (List.of_mem_zip hr).2
+  have hw2 : ∀ r ∈ codes.zip v2, WF k r.2 := fun r hr => hwf2 r.2 (List.of_mem_zip hr).2
+  obtain ⟨s1, hs1, e1⟩ := C04.groupKernel_eq_def .sum k hk _ mask threads none p1 hw1 hm1 h1 g hg
+  obtain ⟨s2, hs2, e2⟩ := C04.groupKernel_eq_def .sum k hk _ mask threads none p2 hw2 hm2 h2 g hg
+  refine ⟨s1, s2, hs1, hs2, ?_⟩
+  have hwfs1 : ∀ v ∈ valsOf s1 g, WF k v := C04.valsOf_wf (fun r hr => hw1 r (selectGen_mem _ mask s1 hs1 r hr)) g
+  have hwfs2 : ∀ v ∈ valsOf s2 g, WF k v := C04.valsOf_wf (fun r hr => hw2 r (selectGen_mem _ mask s2 hs2 r hr)) g
+  simp only [e1, e2, spec_sum_num hwfs1, spec_sum_num hwfs2, ratioFrom, groupNums]
+
+/-- **`GroupBy.subset_ratio`**: sum over the rows selected by both masks over the sum over the rows the
+global mask selects; null for a group without any row in the subset (its label is missing from the
+numerator, and the division aligns on labels) -/
+theorem group_subset_ratio_eq (k : Kind) (hk : k.Supported) (rows : List Row) (subset gm : List Bool) (threads : Nat)
+    (out : Int → Option Rat) (hwf : ∀ r ∈ rows, WF k r.2) (hl1 : subset.length = rows.length) (hl2 : gm.length = rows.length)
+    (h : groupSubsetRatio modelReducers k rows subset (some gm) threads = some out) (g : Int) (hg : 0 ≤ g) :
+    out g = if (valsOf (selectBool rows (List.zipWith (· && ·) subset gm)) g).length = 0 then none else
+      fdiv (((groupNums k (selectBool rows (List.zipWith (· && ·) subset gm)) g).foldr (· + ·) 0 : Int) : Rat)
+        (((groupNums k (selectBool rows gm) g).foldr (· + ·) 0 : Int) : Rat) := by
+  unfold groupSubsetRatio at h
+  simp only at h
+  cases h1 : groupKernel modelReducers .sum k rows (.bool (List.zipWith (· && ·) subset gm)) threads none with
+  | none => simp [h1] at h
+  | some p1 =>
+  cases hn : groupKernel modelReducers .size k rows (.bool (List.zipWith (· && ·) subset gm)) threads none with
+  | none => simp [h1, hn] at h
+  | some pn =>
+  cases h2 : groupKernel modelReducers .sum k rows (.bool gm) threads none with
+  | none => simp [h1, hn, h2] at h
+  | some p2 =>
+  simp only [h1, hn, h2, Option.some.injEq] at h
+  subst h
+  have hlz : (List.zipWith (· && ·) subset gm).length = rows.length := by simp [hl1, hl2]
+  obtain ⟨s1, hs1, e1⟩ := C04.groupKernel_eq_def .sum k hk rows _ threads none p1 hwf
+    (fun m hm => by cases hm; exact hlz) h1 g hg
+  obtain ⟨sn, hsn, en⟩ := C04.groupKernel_eq_def .size k hk rows _ threads none pn hwf
+    (fun m hm => by cases hm; exact hlz) hn g hg
+  obtain ⟨s2, hs2, e2⟩ := C04.groupKernel_eq_def .sum k hk rows _ threads none p2 hwf
+    (fun m hm => by cases hm; exact hl2) h2 g hg
+  have hwfs1 : ∀ v ∈ valsOf s1 g, WF k v := C04.valsOf_wf (fun r hr => hwf r (selectGen_mem _ _ s1 hs1 r hr)) g
+  have hwfs2 : ∀ v ∈ valsOf s2 g, WF k v := C04.valsOf_wf (fun r hr => hwf r (selectGen_mem _ _ s2 hs2 r hr)) g
+  simp only [selectRows, selectGen, hlz, hl2, if_true, Option.some.injEq] at hs1 hsn hs2
+  subst hs1; subst hsn; subst hs2
+  have en' : (pn g).2 = ((valsOf (selectBool rows (List.zipWith (· && ·) subset gm)) g).length : Int) := by
+    rw [en]; rfl
+  simp only [e1, en', e2, spec_sum_num hwfs1, spec_sum_num hwfs2, ratioFrom, groupNums, Int.natCast_eq_zero]
+
+/-- the contribution of one row to a sum: its number when it is non-null, else nothing -/
+def rowNum (k : Kind) (r : Row) : Int :=
+  if isNull k r.2 then 0 else match r.2 with
+    | .num n => n
+    | .nan => 0
+
+theorem groupNums_sum (k : Kind) (sel : List Row) (j : Int) :
+    (groupNums k sel j).foldr (· + ·) 0 = aggM (fun a b : Int => a + b) 0 ((sel.filter fun r => r.1 = j).map (rowNum k)) := by
+  induction sel with
+  | nil => rfl
+  | cons r rs ih =>
+    obtain ⟨c, v⟩ := r
+    simp only [groupNums, valsOf, nonNull, numsOf] at ih ⊢
+    by_cases hj : c = j
+    · cases hn : isNull k v
+      · cases v with
+        | num n => simp [hj, hn, rowNum, Val.toInt?, ih]
+        | nan =>
+          simp only [hj, hn, rowNum, decide_true, List.filter_cons_of_pos, List.map_cons, Bool.not_false, aggM_cons,
+            Bool.false_eq_true, if_false, List.filterMap_cons, Val.toInt?]
+          simpa using ih
+      · simp [hj, hn, rowNum, ih]
+    · simp [hj, ih]
+
+/-- **`GroupBy.density`** (one key): the share, in percent, of the group's sum in the sum over *all*
+selected rows that carry a (non-null) label -/
+theorem group_density_eq (k : Kind) (hk : k.Supported) (rows : List Row) (mask : Mask) (ngroups threads : Nat)
+    (out : Int → Option Rat) (hwf : ∀ r ∈ rows, WF k r.2) (hm : ∀ m, mask = .bool m → m.length = rows.length)
+    (h : groupDensity modelReducers k rows mask ngroups threads = some out) (g : Int) (hg : 0 ≤ g) :
+    ∃ sel, selectRows rows mask = some sel ∧
+      out g = fdiv (100 * (((groupNums k sel g).foldr (· + ·) 0 : Int) : Rat))
+        ((aggM (fun a b : Int => a + b) 0
+          ((sel.filter fun r => r.1 ∈ (List.range ngroups).map Int.ofNat).map (rowNum k)) : Int) : Rat) := by
+  unfold groupDensity at h
+  cases h1 : groupKernel modelReducers .sum k rows mask threads none with
+  | none => simp [h1] at h
+  | some p =>
+  simp only [h1, Option.some.injEq] at h
+  subst h
+  obtain ⟨sel, hsel, e1⟩ := C04.groupKernel_eq_def .sum k hk rows mask threads none p hwf hm h1 g hg
+  refine ⟨sel, hsel, ?_⟩
+  have hwfs : ∀ j, ∀ v ∈ valsOf sel j, WF k v :=
+    fun j => C04.valsOf_wf (fun r hr => hwf r (selectGen_mem rows mask sel hsel r hr)) j
+  have hall : ∀ j : Nat, (p (Int.ofNat j)).1 = .num ((groupNums k sel (Int.ofNat j)).foldr (· + ·) 0) := by
+    intro j
+    obtain ⟨sel', hsel', e⟩ := C04.groupKernel_eq_def .sum k hk rows mask threads none p hwf hm h1 (Int.ofNat j) (by simp)
+    have : sel' = sel := Option.some.inj (hsel'.symm.trans hsel)
+    rw [this] at e
+    rw [e, spec_sum_num (hwfs _)]; rfl
+  have htotal : (((List.range ngroups).map fun j => (p (Int.ofNat j)).1).filterMap Val.toInt?).foldr (· + ·) 0
+      = aggM (fun a b : Int => a + b) 0 ((sel.filter fun r => r.1 ∈ (List.range ngroups).map Int.ofNat).map (rowNum k)) := by
+    have hnd : ((List.range ngroups).map Int.ofNat).Nodup := by
+      exact List.Nodup.map (fun a b hab => Int.ofNat.inj hab) List.nodup_range
+    rw [← aggM_partition sum_laws (fun r : Row => r.1) (rowNum k) _ hnd sel]
+    simp only [List.map_map, Function.comp_def, hall, List.filterMap_map, Val.toInt?, aggM]
+    congr 1
+    induction (List.range ngroups) with
+    | nil => rfl
+    | cons a as ih => simp [List.filterMap_cons, groupNums_sum, ih, aggM]
+  simp only [e1, spec_sum_num (hwfs g), htotal, groupNums]
 
 example : lsumDev (lsum [1, 2, 6] / 3) [1, 2, 6] / (3 - 1) = 7 := by decide +kernel
 
